@@ -4,9 +4,9 @@ and (re)builds the detection matrix: for every seeded change, apply it to a scra
 its property (and related ones) against that worktree through VERIF_REPO, remove the worktree.  /repo itself is never touched."""
 import json, os, shutil, subprocess, sys
 
-SRCS = [("/tmp/seeded", 1), ("/tmp/seeded2", 2)]
+SRCS = [("/tmp/seeded", 1), ("/tmp/seeded2", 2), ("/tmp/seeded3", 3)]
 DST = "/verif/seeded"
-RELATED = {"C02": ["C14"], "C03": ["C02", "C14"], "C14": ["C02"], "C10": ["C09"], "C18": [], "C08": []}
+RELATED = {"C02": ["C14"], "C03": ["C02", "C14"], "C14": ["C02"], "C10": ["C09"], "C18": [], "C08": [], "C07": ["C08"], "C09": ["C14"], "C11": ["C12"], "C12": ["C13"], "C13": ["C12"]}
 STRENGTHENED = {
     "C03-dedup-swallows-ack": "missed at first; C03 gained forced message-ID collisions (stray ACK/RST and a peer request on the ID the CON is going to use)",
     "C03-timeout-fails-wrong-request": "missed by C03 at first (caught by C02 and C14); C03 gained a bystander request registered later",
